@@ -12,9 +12,18 @@ lpp.h) - no cflib encoder, constant or struct format is imported.
 
 Enumeration (no sampling): one-argument-at-a-time over the full alphabets, full cross product over
 the reduced alphabets, all pairs of arguments over the full alphabets, (thorough) the full cross
-product of the float alphabet for the 3/4-float commands and 3^12 x quaternion cross for full
-state; protocol versions on both sides of each switch; X-mode never set / off / on; all 16 x 4
-headers through the constructor, set_header and the port/channel setters from every previous state.
+product of the float alphabet for the 3/4-float commands, the 3^12 reduced cross for full state, the
+9^4 quaternion lattice and every protocol version -1..255; protocol versions on both sides of each
+switch; X-mode never set / off / on; all 16 x 4 headers through the constructor, set_header and
+the port/channel setters from every previous state.
+
+Not demanded (statement silent or behaviour documented): sign of a float zero; reserved header bits
+3..2; ports > 15 / channels > 3; spiral angle beyond +/-2 pi and negative radii (documented limits:
+raw value, documented clamp or an exception are all accepted); spiral on protocol < 8 (command does
+not exist there: sending nothing is accepted); go_to(linear=True) on protocol < 8 (flag does not
+exist in that layout); float thrust (docstring says integer: exception or value within one unit);
+values whose truncation fits int16 but whose rounding does not (either); yaw field when
+useCurrentYaw is set; physical units of the full-state rates (only value*1000 is checked).
 """
 import itertools
 import math
@@ -57,25 +66,6 @@ def f32(x):
 
 def _isnum(x):
     return isinstance(x, (int, float)) and not isinstance(x, bool)
-
-
-def _cls(x):
-    """Coarse input class used in signatures."""
-    if x is DEF:
-        return 'default'
-    if x is None:
-        return 'none'
-    if isinstance(x, bool):
-        return 'bool'
-    if isinstance(x, (int, float)):
-        if x != x:
-            return 'nan'
-        if x in (INF, -INF):
-            return 'inf'
-        if x == 0:
-            return 'zero'
-        return 'neg' if x < 0 else 'pos'
-    return type(x).__name__
 
 
 class _Null:
@@ -871,6 +861,9 @@ def gen_cases(cmd, mode, tier):
     elif mode == 'cross':
         for a in itertools.product(*[p.reduced() for p in params]):
             yield a
+    elif mode == 'cross_noquat':
+        for a in itertools.product(*[p.reduced() if p.kind != 'quat' else [p.base] for p in params]):
+            yield a
     elif mode == 'pairs_red':
         for i, j in itertools.combinations(range(len(params)), 2):
             for vi in params[i].reduced():
@@ -906,10 +899,10 @@ def gen_cases(cmd, mode, tier):
 
 def count_mode(cmd, mode, tier):
     params = COMMANDS[cmd][0]
-    if mode == 'cross':
+    if mode in ('cross', 'cross_noquat'):
         n = 1
         for p in params:
-            n *= len(p.reduced())
+            n *= len(p.reduced()) if (mode == 'cross' or p.kind != 'quat') else 1
         return n
     if mode == 'full':
         n = 1
@@ -1064,13 +1057,14 @@ def _jobs(tier):
     jobs = []
     notes = {}
 
-    def add(cmd, mode, versions, xms, per_job=150000):
-        n = count_mode(cmd, mode, tier)
+    def add(cmd, mode, versions, xms, per_job=150000, atier=tier):
+        # atier selects the quaternion lattice of the full-state command (5^4 or 9^4 levels)
+        n = count_mode(cmd, mode, atier)
         total = n * len(versions) * len(xms)
         nsh = max(1, min(n, 64, -(-total // per_job)))
         for s in range(nsh):
-            jobs.append((cmd, mode, tuple(versions), tuple(xms), s, nsh, tier))
-        notes.setdefault(cmd, {})[mode] = n
+            jobs.append((cmd, mode, tuple(versions), tuple(xms), s, nsh, atier))
+        notes.setdefault(cmd, {})[mode if len(versions) < 20 else mode + '_all_versions'] = n
         return n
 
     for cmd in COMMANDS:
@@ -1087,13 +1081,13 @@ def _jobs(tier):
         add(cmd, 'pairs', vv, xx, 60000)
         # thorough --------------------------------------------------------------------------------
         if tier != 'quick':
-            add(cmd, 'oaat', V_ALL, XM_ALL)
-            if n_cross <= 40000:
-                add(cmd, 'cross', V_ALL if cmd in VERSION_DEPENDENT else V_QUICK, XM_ALL)
-            else:
-                add(cmd, 'cross', (9,), (False,), 40000)
+            xa = XM_ALL if cmd == 'commander.send_setpoint' else (False,)
+            add(cmd, 'oaat', V_ALL, xa, atier='quick')
+            add(cmd, 'pairs_red', V_ALL, xa, atier='quick')
+            if n_cross > 40000:
+                add(cmd, 'cross_noquat', (9,), (False,), 40000)
             if 1 < count_mode(cmd, 'full', tier) <= 400000:
-                add(cmd, 'full', vv, xx)
+                add(cmd, 'full', (8, 9) if cmd in VERSION_DEPENDENT else (9,), xx)
     return jobs, notes
 
 
@@ -1111,24 +1105,30 @@ def _dispatch(job):
 
 
 def run(ck):
-    ck.rule = ('per command (%d commands of Commander, HighLevelCommander, Localization, Extpos, PlatformService, '
-               'LoPoAnchor on a real Crazyflie with a recording link): one-argument-at-a-time over the full alphabets '
-               '(%d floats incl. -0.0, float32 max, the exact overflow threshold, 1e39, +/-inf, nan; integers min-1..max+1; '
-               'thrust; None/default for optional arguments; payload lengths 0..30; base-station lists), full cross '
-               'product over the reduced alphabets {0,1,-2.5}/{0,1,max}/bools (pairs+triples for full state in quick, '
-               'full 3^12 x 4 cross in thorough), all argument pairs over the full alphabets; x protocol versions %r '
-               '(thorough: -1..255) x X-mode never-set/off/on; thorough adds the full float cross product of every '
-               'command with <= 400k combinations. Headers: 16 ports x 4 channels through constructor (all 256 header '
-               'bytes), constructor with data, set_header, port/channel setters in both orders and singly, from a '
-               'fresh packet and from each of the 64 previous states. distinct = distinct (command, version, xmode, '
-               'args) tuples' % (len(COMMANDS), len(F_FULL), V_QUICK))
+    ck.rule = ('per command (%d public commands of Commander, HighLevelCommander, Localization, Extpos, PlatformService, '
+               'LoPoAnchor on a real Crazyflie with a recording link): [oaat] one argument at a time over the full alphabets '
+               '(%d floats incl. -0.0, float32 max, the exact float32 overflow threshold, 1e39, +/-inf, nan; %d fixed-point '
+               'values around +/-32.767 and the 65.536 wrap points; integers min-1..max+1; %d thrust values; None and '
+               'omitted for optional arguments; payload lengths 0..30; %d base-station lists; quaternion lattice 5^4 x 3 '
+               'scales) x versions %r x X-mode never-set/off/on; [cross] full cross product over the reduced alphabets '
+               '{0,1,-2.5}/{0,1,max}/bools/{0,1,65535,-1,65536} (full state: all pairs and triples) x the same versions '
+               'and X-modes; [pairs] every pair of arguments over the full alphabets at versions 7,8,9 (version-dependent '
+               'commands) or 9. thorough adds: oaat and reduced pairs at every version -1..255, the full float cross product '
+               '(24^3..24^4, versions 8 and 9) for every command with <= 400k combinations, the 3^12 reduced cross and the '
+               '9^4 x 3 quaternion lattice for full state. Headers: 16 ports x 4 channels through the constructor (all 256 '
+               'header bytes), constructor with data, set_header, port/channel setters in both orders and singly, from a '
+               'fresh packet and from each of the 64 previous states. distinct = distinct (command, version, xmode, args) '
+               'or (header route, previous state, port, channel) tuples'
+               % (len(COMMANDS), len(F_FULL), len(X_FULL), len(THRUST_FULL), len(BS_FULL), V_QUICK))
     ck.assume('reference wire table (port, channel, type byte, struct layout, scale, sign, version switch) is an '
               'independent transcription of the firmware structs written in this check; the firmware itself is not run')
     ck.assume('legacy generic setpoint types 1/2/5 (yaw rate negated) are what protocol versions <= 8 understand, new '
-              'types 8/9/10 from version 9; GO_TO_2/SPIRAL exist from version 8')
-    ck.assume('recording link stands for any link driver: all drivers transmit pk.header (or get_header()) followed by pk.data')
-    ck.assume('float32 rounding reference is numpy.float32; quaternion field decoded by an independent decompressor, '
-              'tolerance 2 steps of 1/511/sqrt(2)')
+              'types 8/9/10 from version 9; GO_TO_2 (12) and SPIRAL (11) exist from version 8, GO_TO (4) before')
+    ck.assume('the recording link stands for every link driver: all drivers transmit pk.header (prrt: get_header()) '
+              'followed by pk.data; both are recorded and must agree')
+    ck.assume('float32 rounding reference is numpy.float32 (round to nearest even, overflow -> unrepresentable); the '
+              'quaternion field is decoded by an independent decompressor, tolerance 2 steps of 1/511/sqrt(2)')
+    ck.assume('fixed-point fields: |wire - value*1000| < 1 unit; physical unit of the full-state rates is not judged')
     jobs, notes = _jobs(ck.tier)
     alljobs = [('cmd', j) for j in jobs] + [('hdr', j) for j in _header_jobs()]
     ck.pmap(_dispatch, alljobs)
@@ -1137,6 +1137,12 @@ def run(ck):
     ck.note('per_command_case_counts', notes)
     ck.note('protocol_versions', list(V_QUICK) if ck.quick else 'every value -1..255')
     ck.note('float_alphabet', [repr(x) for x in F_FULL])
+    ck.note('fixed_point_alphabet', [repr(x) for x in X_FULL])
+    ck.note('not_demanded', ['sign of float zero', 'reserved header bits 3..2', 'ports > 15 / channels > 3',
+                             'spiral angle beyond 2pi / negative radii: raw, documented clamp or exception accepted',
+                             'spiral on protocol < 8: nothing sent accepted', 'go_to linear flag on protocol < 8',
+                             'float thrust: exception or within one unit', 'int16 border where truncation fits but '
+                             'rounding does not', 'yaw field when useCurrentYaw', 'unit of full-state rates'])
     ck.note('jobs', len(alljobs))
 
 
